@@ -132,7 +132,7 @@ fn gen_ops(r: &mut Rng, nops: usize) -> Vec<Value> {
     let mut ops = Vec::new();
     if r.chance(1, 3) {
         // scaffold: select > (wrapper >)* selectedcontent, option[selected] > children, then clone
-        let mut mk = |ops: &mut Vec<Value>, s: &mut Shadow, nm: &'static str, attr: Option<&str>, parent: Option<usize>| -> usize {
+        let mk = |ops: &mut Vec<Value>, s: &mut Shadow, nm: &'static str, attr: Option<&str>, parent: Option<usize>| -> usize {
             let id = s.kind.len();
             let attrs: Vec<Value> = attr.iter().map(|a| json!({"ns":"","prefix":[],"local":cps(a),"v":cps("")})).collect();
             ops.push(json!({"ev":"create_element","id":id,"ns":"html","local":cps(nm),"prefix":[],"attrs":attrs,"template":false,"ip":false,"dup":false}));
